@@ -1,7 +1,7 @@
 CONSTANTS
   Towers = {"t1", "t2"}
   Locators = {"l1", "l2", "l3", "l4"}
-  DEVIATIONS = {"S12", "S13", "S14", "S15", "S16", "S18"}
+  DEVIATIONS = {"S12", "S13", "S14", "S15", "S16", "S18", "S19"}
   MINB = 240
   SLACK = 4000
 SPECIFICATION Spec
